@@ -15,7 +15,7 @@ RULE = ('text: lines "id SEP name [SEP anything]" joined by \\n or \\r\\n, with/
         'from_trace_codes_text / from_trace_codes_file == dict built by a plain loop over the generated lines. '
         'table: event streams from the scenario builder, written as a v2 file and decoded through PyKdebugParser with a '
         'supplied table: (a) renumbering: the stream re-encoded under an injective renumbering sigma (new ids partly '
-        'colliding with bundled ids of OTHER names) and decoded under sigma(T) gives the same trace texts, and the '
+        'colliding with bundled ids of OTHER names, partly moved into class 7 and its subclasses 0x0700/0x0701) and decoded under sigma(T) gives the same trace texts, and the '
         'event listing shows "name (hex(sigma(id)))"; (b) removal: names removed from T are listed as bare hex and '
         'decode like the stream with those events deleted; (c) the empty table decodes nothing and lists only bare hex; (d) a name listed under a second id is decoded under both; '
         '(e) a listing requested under a table and consumed after other requests on the same object still uses its table. '
@@ -120,12 +120,16 @@ def prop_table(ctx, case):
     # (a) renumbering
     pool_other = sorted(i for i, n in byid.items() if n not in used and not i & 3)
     sigma, taken = {}, set()
-    collide = 0
+    collide = into7 = 0
     for k, n in enumerate(used):
         w = S.expand_words(case['seed'] + 4096, k)
         if w[0] % 3 == 0 and pool_other:
             new = pool_other[w[1] % len(pool_other)]
             collide += 1
+        elif w[0] % 3 == 1 and w[2] % 2:
+            # ids inside the kernel-trace class (7), half of them in the two subclasses of the bundled TRACE_* names
+            new = (0x07000000 | ((w[1] & 1) << 16 if w[3] % 2 else w[1] & 0xff0000) | (w[2] & 0xfffc)) & ~3
+            into7 += 1
         else:
             new = (w[1] % (1 << 32)) & ~3
         while new in taken or (new in byid and byid[new] in used and byid[new] != n):
@@ -206,7 +210,7 @@ def prop_table(ctx, case):
     if bad:
         raise Violation('empty-table-names', f'an empty supplied table still names events: {bad[:2]}')
     ctx.note([used, sorted(sigma.values()), removed], nontrivial=bool(base_traces) and (collide > 0 or bool(removed)),
-             classes=['table', 'colliding-ids' if collide else 'fresh-ids', 'removed' if removed else 'none-removed',
+             classes=['table', 'colliding-ids' if collide else 'fresh-ids', *(['renumbered-into-class-7'] if into7 else []), 'removed' if removed else 'none-removed',
                       'traces' if base_traces else 'no-traces'])
 
 
